@@ -8,6 +8,8 @@
    node, visiting order of retain_*.                                         *)
 EXTENDS MGState
 
+CONSTANT MaxIxC        \* index-type limit of the bounded model (the trace specs take it from the trace)
+
 avars == <<nd, ed, dir, maxix, stamp, ret, pending>>
 
 N == Len(nd)
@@ -24,7 +26,7 @@ SwapRemove(s, i) ==       \* Vec::swap_remove at 0-based i
     ELSE [j \in 1 .. (L - 1) |-> IF j = i + 1 THEN s[L] ELSE s[j]]
 
 Init == /\ nd = <<>> /\ ed = <<>> /\ stamp = 0 /\ ret = <<"s", "ok">> /\ pending = {}
-        /\ dir \in BOOLEAN /\ maxix \in {3}
+        /\ dir \in BOOLEAN /\ maxix = MaxIxC
 
 ---------------------------------------------------------------------------
 TryAddNodeR(w, limit) ==
@@ -185,7 +187,7 @@ FilterMap(nmap, emap) ==
 ---------------------------------------------------------------------------
 (* bounded model: weights from W, arguments from 0..maxix (one past every valid index) *)
 CONSTANT W
-Args == 0 .. 3
+Args == 0 .. MaxIxC
 Next ==
     \/ \E w \in W : TryAddNode(w) \/ AddNode(w)
     \/ \E a, b \in Args, w \in W : TryAddEdge(a, b, w) \/ AddEdge(a, b, w) \/ TryUpdateEdge(a, b, w) \/ UpdateEdge(a, b, w)
